@@ -12,12 +12,21 @@ Engine: breadth-first search over event histories on three scenes (3-4 trees eac
 of every mjData buffer array (time excluded) + the sleep flag + the pending documented wake obligations.  Each
 distinct state is re-created at the next level by replaying its history on a reset mjData (and must hash to the
 same value), successors are produced with mj_copyData + one event.  Invariants are evaluated around EVERY mj_step.
+
+Body-class alphabet: besides the trees, the scenes contain every class of dof-less body that mj_updateSleepInit has to
+classify (static child of the world, static child of a static body, mocap body, jointless child and grandchild of a
+mocap body).  The colliding geoms of the mocap hand / paddle and the weld target sit on the jointless descendants, the
+events move (and turn) the mocap roots, so "touches an awake tree" and "constrained to" are exercised through bodies
+that are welded to a mocap body; after every step each dof-less body and its geoms must be at the pose composed from
+body_pos/body_quat and the current mocap_pos/mocap_quat (I7), the sleep-off twin of the pile scene is dragged the same
+way (I6) and the derived arrays are recomputed with the root-based mocap rule (I5).
 """
 import subprocess
 
 import numpy as np
 
 from .. import build, core, mj
+from ..mjutil import quat2mat, quat_mul
 
 LEVEL = "model_checking"
 META = dict(
@@ -25,16 +34,18 @@ META = dict(
     technique="explicit-state BFS over user-event histories of a live mjData (state hash de-duplication, replay validation) with "
               "step-wise invariants and a sleep-off differential twin; exhaustive enumeration of all sleep-cycle arrays for the pure core",
     text="Cycle corruption and missed wake-ups depend on the ORDER of sleep and wake events, so the check explores every history "
-         "of documented user events (step, settle, set qvel/qpos, apply/clear xfrc/qfrc, toggle eq_active, move the mocap body, push "
-         "an awake body into a sleeping pile, toggle the sleep flag) up to depth 4 (5) on scenes that contain each documented "
+         "of documented user events (step, settle, set qvel/qpos, apply/clear xfrc/qfrc, toggle eq_active, move and turn the mocap body, "
+         "drag a mocap hand so that its welded finger presses into a box, push an awake body into a sleeping pile, toggle the sleep flag) up to depth 4 (5) on scenes that contain each documented "
          "coupling (contact pile, tendon limit, equality, mocap weld/contact, sleep=init), checking after every engine step that "
          "tree_asleep is a set of closed cycles, that a new cycle is exactly one island of that step (islands recomputed from "
          "efc_J), that sleeping trees are bit-frozen, that every documented wake obligation is honoured for the whole cycle and "
-         "that the derived arrays match. The mj_sleepCycle/mj_wakeIsland core is exhausted over all arrays, malformed included.",
+         "that the derived arrays match, and that every dof-less body (static, nested static, mocap, jointless child / grandchild of a "
+         "mocap body, which carry the colliding geoms and the weld target) is at the pose given by the model and the current mocap "
+         "inputs. The mj_sleepCycle/mj_wakeIsland core is exhausted over all arrays, malformed included.",
     note="Wake obligations are the one-hop reading of the documentation (perturbed trees, and trees coupled by an active "
          "equality / active tendon limit / designed deep contact to a tree that is awake or perturbed at the start of the step). "
-         "Contact obligations are only asserted for the two designed placements (deep overlap by construction). Differential vs "
-         "sleep disabled is compared on qpos,qvel,act,qacc,qacc_warmstart,qfrc_constraint,contact list,efc_force while no tree "
+         "Contact obligations are only asserted for the designed placements (push, touch, drag: deep overlap by construction). Differential vs "
+         "sleep disabled is compared on qpos,qvel,act,qacc,qacc_warmstart,qfrc_constraint,qfrc_smooth,xpos,xquat,contact list,efc_force while no tree "
          "has been asleep. Flexes are not in the alphabet.",
     design_ref="DESIGN.md §3 C18")
 
@@ -43,13 +54,18 @@ mjENBL_SLEEP = 1 << 4
 mjOBJ_BODY, mjOBJ_JOINT, mjOBJ_GEOM = 1, 3, 5
 
 SCENES = {
-    # two stacked boxes on a plane + a third apart
+    # two stacked boxes on a plane + a third apart; dof-less bodies of every class: a static body with a static child, a mocap
+    # "hand" whose colliding geom sits on a jointless child ("finger") that the drag event presses into box C
     "pile": dict(xml='''<mujoco><option timestep="0.005" jacobian="dense"><flag sleep="%s"/></option><size memory="300K"/>
 <worldbody><geom name="floor" type="plane" size="5 5 .1"/>
 <body name="A" pos="0 0 0.1"><freejoint/><geom name="gA" type="box" size=".2 .2 .1"/></body>
 <body name="B" pos="0 0 0.3"><freejoint/><geom name="gB" type="box" size=".15 .15 .1"/></body>
 <body name="C" pos="1.5 0 0.1"><freejoint/><geom name="gC" type="box" size=".1 .1 .1"/></body>
-</worldbody></mujoco>''', trees=["A", "B", "C"], events=[("push",)], diff=True),
+<body name="post" pos="-1.5 0 0" quat="0.8 0 0 0.6"><geom name="gpost" type="box" size=".05 .05 .2" pos="0 0 .2"/>
+ <body name="postc" pos="0.1 0 .4" quat="0.6 0.8 0 0"><geom name="gpostc" type="sphere" size=".05" pos="0 .02 0"/></body></body>
+<body name="hand" mocap="true" pos="1.5 -2 1"><geom size=".02" contype="0" conaffinity="0"/>
+ <body name="finger" pos="0.1 0 0.05"><geom name="gfinger" type="sphere" size=".06"/></body></body>
+</worldbody></mujoco>''', trees=["A", "B", "C"], events=[("push",), ("drag",)], diff=True),
     # tendon-limit coupled pair + a third tree coupled by a switchable joint equality
     "coupled": dict(xml='''<mujoco><option timestep="0.005" jacobian="dense" gravity="0 0 0"><flag sleep="%s"/></option><size memory="300K"/>
 <worldbody>
@@ -60,17 +76,19 @@ SCENES = {
 <tendon><fixed name="t" limited="true" range="-0.1 0.1"><joint joint="jP" coef="1"/><joint joint="jQ" coef="-1"/></fixed></tendon>
 <equality><joint name="e" joint1="jQ" joint2="jR" active="false"/></equality>
 </mujoco>''', trees=["P", "Q", "R"], events=[("eq", 0)], diff=True),
-    # two trees initialised asleep in one island, a box on the plane, a body welded to a mocap body, a mocap paddle
+    # two trees initialised asleep in one island, a box on the plane, a body welded to the jointless child of a mocap body, a
+    # mocap paddle whose colliding geom sits on a jointless grandchild
     "mocap": dict(xml='''<mujoco><option timestep="0.005" jacobian="dense"><flag sleep="%s"/></option><size memory="300K"/>
 <worldbody><geom name="floor" type="plane" size="5 5 .1"/>
 <body name="D" pos="-1.5 0 1.0" sleep="init"><freejoint/><geom name="gD" type="sphere" size=".1"/></body>
 <body name="F" pos="-1.5 0.15 1.0" sleep="init"><freejoint/><geom name="gF" type="sphere" size=".1"/></body>
 <body name="E" pos="1.5 0 0.1"><freejoint/><geom name="gE" type="box" size=".1 .1 .1"/></body>
 <body name="W" pos="0 2 1"><freejoint/><geom name="gW" type="sphere" size=".05" contype="0" conaffinity="0"/></body>
-<body name="M" mocap="true" pos="0 2 1"><geom size=".02" contype="0" conaffinity="0"/></body>
-<body name="paddle" mocap="true" pos="0 -3 3"><geom name="gpad" type="sphere" size=".1"/></body>
+<body name="M" mocap="true" pos="-0.1 2 1"><geom size=".02" contype="0" conaffinity="0"/>
+ <body name="Mc" pos="0.1 0 0"><geom size=".01" contype="0" conaffinity="0"/></body></body>
+<body name="paddle" mocap="true" pos="0 -3 3"><body name="pad1" pos="0 0 -0.2"><body name="pad2" pos="0.1 0 0"><geom name="gpad" type="sphere" size=".1"/></body></body></body>
 </worldbody>
-<equality><weld name="w" body1="W" body2="M"/></equality>
+<equality><weld name="w" body1="W" body2="Mc"/></equality>
 </mujoco>''', trees=["D", "F", "E", "W"], events=[("eq", 0), ("touch", "E"), ("touch", "D"), ("away",), ("movemocap",)],
                   pertrees=["D", "E", "W"], diff=False),
 }
@@ -122,6 +140,36 @@ class Scene:
         if name == "mocap":
             self.mocap_M = int(m.body_mocapid[lib.mj_name2id(m, mjOBJ_BODY, b"M")])
             self.mocap_pad = int(m.body_mocapid[lib.mj_name2id(m, mjOBJ_BODY, b"paddle")])
+        if name == "pile":
+            self.mocap_hand = int(m.body_mocapid[lib.mj_name2id(m, mjOBJ_BODY, b"hand")])
+        # dof-less bodies (no tree): pose relative to their root (a child of the world), composed from the compiled
+        # body_pos / body_quat; the root itself is either static (pose = body_pos/quat) or mocap (pose = mocap_pos/quat)
+        body_pos, body_quat = np.array(m.body_pos), np.array(m.body_quat)
+        rootid, mocapid = np.array(m.body_rootid), np.array(m.body_mocapid)
+        self.rigid = []          # (body, root, mocapid of root or -1, rel_pos, rel_quat, class)
+        self.body_classes = {}
+        for b in range(1, m.nbody):
+            if self.body_treeid[b] >= 0:
+                continue
+            chain, c = [], b
+            while c != rootid[b]:
+                chain.append(c)
+                c = int(self.body_parentid[c])
+            rp, rq = np.zeros(3), np.array([1.0, 0, 0, 0])
+            for c in reversed(chain):
+                rp = rp + quat2mat(rq) @ body_pos[c]
+                rq = quat_mul(rq, body_quat[c])
+            r = int(rootid[b])
+            cls = ("mocap" if mocapid[r] >= 0 else "static") + ("" if not chain else "_child" if len(chain) == 1 else "_descendant")
+            self.body_classes[cls] = self.body_classes.get(cls, 0) + 1
+            geoms = [(g, np.array(m.geom_pos[g])) for g in range(m.ngeom) if m.geom_bodyid[g] == b]
+            self.rigid.append((b, r, int(mocapid[r]), rp, rq, geoms))
+        self.root_pos, self.root_quat = body_pos, body_quat
+
+    def rel_offset(self, bodyname):
+        """Offset of a dof-less body from its root for an identity root orientation."""
+        b = self.lib.mj_name2id(self.m, mjOBJ_BODY, bodyname.encode())
+        return [x[3] for x in self.rigid if x[0] == b][0]
 
 
 class State:
@@ -226,6 +274,28 @@ class Explorer:
         if list(np.array(d.body_awake_ind)[:len(bai)]) != bai or list(np.array(d.parent_awake_ind)[:len(pai)]) != pai \
                 or list(np.array(d.dof_awake_ind)[:len(dai)]) != dai:
             return "*_awake_ind lists"
+        return None
+
+    def rigid_ok(self, d):
+        sc = self.sc
+        xpos, xquat, gx = np.array(d.xpos), np.array(d.xquat), None
+        mp, mq = np.array(d.mocap_pos), np.array(d.mocap_quat)
+        for b, r, mid, rp, rq, geoms in sc.rigid:
+            if mid >= 0:
+                p0, q0 = mp[mid], mq[mid] / np.linalg.norm(mq[mid])
+            else:
+                p0, q0 = sc.root_pos[r], sc.root_quat[r]
+            R0 = quat2mat(q0)
+            p, q = p0 + R0 @ rp, quat_mul(q0, rq)
+            if np.abs(xpos[b] - p).max() > 1e-12 or np.abs(xquat[b] - q).max() > 1e-12:
+                return "body %d (root %d, %s): xpos=%s xquat=%s expected %s %s" % (b, r, "mocap" if mid >= 0 else "static", xpos[b], xquat[b], p, q)
+            if geoms:
+                gx = np.array(d.geom_xpos) if gx is None else gx
+                R = quat2mat(q)
+                for g, gp in geoms:
+                    if np.abs(gx[g] - (p + R @ gp)).max() > 1e-12:
+                        return "geom %d of body %d (root %d, %s): geom_xpos=%s expected %s" % (g, b, r, "mocap" if mid >= 0 else "static", gx[g], p + R @ gp)
+            self.part.add("rigid_pose_checks")
         return None
 
     def obligations(self, d, st):
@@ -362,6 +432,10 @@ class Explorer:
         bad = self.derived_ok(d)
         if bad:
             self.viol("derived sleep arrays differ from a recomputation from tree_asleep", bad)
+        # I7 dof-less bodies are where the model and the user's mocap inputs put them (they never sleep)
+        bad = self.rigid_ok(d)
+        if bad:
+            self.viol("a dof-less body (static, mocap or welded to a mocap body) is not at the pose given by the model and mocap_pos/mocap_quat", bad)
         # I6 differential against sleep disabled while no tree has been asleep
         if st.alive:
             if np.any(before >= 0):
@@ -435,16 +509,23 @@ class Explorer:
             if int(d.tree_asleep[C["tree"]]) >= 0:
                 st.pq = st.pq | {C["tree"]}
             st.pc = frozenset({(C["tree"], A["tree"])})
-        elif kind == "touch":     # move the mocap paddle onto the centre of a body
+        elif kind == "touch":     # move the mocap paddle so that its geom (on a jointless grandchild) sits on the centre of a body
             T = sc.tree[ev[1]]
-            d.mocap_pos[sc.mocap_pad] = d.qpos[T["qadr"]:T["qadr"] + 3]
+            d.mocap_pos[sc.mocap_pad] = np.array(d.qpos[T["qadr"]:T["qadr"] + 3]) - sc.rel_offset("pad2")
             st.pc = frozenset({("mocap", T["tree"])})
+        elif kind == "drag":      # pile: toggle the mocap hand between its home and the pose that presses its finger into box C
+            C = sc.tree["C"]
+            home = np.array(d.mocap_pos[sc.mocap_hand])[1] == -2.0
+            for x in both:
+                x.mocap_pos[sc.mocap_hand] = (np.array(x.qpos[C["qadr"]:C["qadr"] + 3]) - sc.rel_offset("finger")) if home else (1.5, -2.0, 1.0)
+            st.pc = frozenset({("mocap", C["tree"])}) if home else frozenset(x for x in st.pc if "mocap" not in x)
         elif kind == "away":
             d.mocap_pos[sc.mocap_pad] = (0.0, -3.0, 3.0)
             st.pc = frozenset()
-        elif kind == "movemocap":  # move the weld target between two positions
-            cur = float(d.mocap_pos[sc.mocap_M][0])
-            d.mocap_pos[sc.mocap_M][0] = 0.05 if cur == 0.0 else 0.0
+        elif kind == "movemocap":  # move and turn the mocap body whose jointless child is the weld target, between two poses
+            home = float(d.mocap_pos[sc.mocap_M][0]) == -0.1
+            d.mocap_pos[sc.mocap_M][0] = -0.05 if home else -0.1
+            d.mocap_quat[sc.mocap_M] = (np.cos(0.1), 0.0, 0.0, np.sin(0.1)) if home else (1.0, 0.0, 0.0, 0.0)
         else:
             raise RuntimeError(kind)
 
@@ -619,11 +700,15 @@ def run(ctx):
     ctx.extra["frontier_sizes"] = per_level
     ctx.extra["depth"] = depth
     ctx.extra["distinct_states_last_level"] = len(frontier)
+    lib = mj.load()
+    ctx.extra["dofless_body_classes"] = {name: Scene(lib, name).body_classes for name in SCENES}
     ctx.rule = ("pure core: every tree_asleep array over {-1,-3,-11} U {0..n-1}, n=1..5%s, x every i in [-1,n] x 3 wake values; engine: BFS over "
                 "all event histories of length <=%d on scenes %s (events: step, settle(<=150 steps until tree_asleep is constant for 12 steps), "
-                "toggle sleep flag, scene events, and per tree set qvel / translate qpos / apply xfrc / apply qfrc (-0.0 for tree 1) / clear "
+                "toggle sleep flag, scene events (toggle an equality; push C into A; drag the mocap hand so that the geom on its jointless child presses "
+                "into C / back; put the geom on the jointless grandchild of the mocap paddle onto a body / away; move+turn the mocap body whose "
+                "jointless child is the weld target), and per tree set qvel / translate qpos / apply xfrc / apply qfrc (-0.0 for tree 1) / clear "
                 "forces), de-duplicated on hash(all mjData buffers)+flag+pending obligations; the last level is expanded but not re-validated. "
-                "non-trivial state = some trees asleep and some awake"
+                "dof-less body classes per scene are counted in dofless_body_classes. non-trivial state = some trees asleep and some awake"
                 % (" and n=6" if ctx.thorough else "", depth, list(SCENES)))
     ctx.assumptions = ["state identity = bit equality of every MJDATA_POINTERS buffer array (time, arena and timers excluded) + sleep flag + obligations",
                        "mj_copyData is used to branch; every distinct state below the last level is re-created by replaying its history from mj_resetData and must hash equal",
